@@ -50,6 +50,18 @@ def cases(tier, rng):
     for p in extra:
         for k in range(1, trailing(p) + 1):
             out.append((p, k))
+    # LAST TOKEN x closing context: every kind of token text right before the closers that get dropped
+    from . import extract
+    elems, _mods = extract.element_table()
+    last = ["0", "0.", "0°", "5.", ".5", ".", "°", "1.5", "10", "00", "0.0", "1°2", "5°", "\n", " ", "1\n", "+\n", "\n\n",
+            "`a`", "`a", "‛ab", "‛a", "\\a", "«a«", "»a»", "⁺a", "#c\n", "→a", "←a", "→", "k", "∆", "ø", "Þ", "¨",
+            "v+", "₌++", "≬+++", "ß+", "&+", "~+", "⁽+", "ƒ+", "ɖ+", "‡++", "₍++", "¨=+", "x", "X", "n"]
+    last += list(dict.fromkeys(e["key"] for e in elems))
+    for tok in dict.fromkeys(last):
+        for ctx in ("[1 □]", "λ□;", "⟨1|□⟩", "(□)", "{1|□}", "[(λ⟨□⟩;)]", "@f|□;", "ƛ□;", "'1 □;", "[1|2 □]"):
+            p = ctx.replace("□", tok)
+            for k in range(1, trailing(p) + 1):
+                out.append((p, k))
     g = gen.Gen(rng, atoms=list("+-*:_$W!^=<>LhtJwf∑ṘUsɾʁn?,…"), strings=True)
     nr = 1500 if tier == "quick" else 30000
     for _ in range(nr):
